@@ -7,6 +7,8 @@ Reflected from the imported classes of the tree under check (never from literals
   Attribute.Flag.* bit and mask constants; the pseudo attribute codes INTERNAL_TREAT_AS_WITHDRAW /
   INTERNAL_DISCARD; AS path segment type codes; AS_TRANS; the EOR prefix and the two EOR lengths;
   Family.size (next-hop lengths and route distinguisher size per family).
+Read from source by ast: RIBIN_WITHDRAW_FIRST (order of the announce / withdraw loops of UpdateHandler.handle and
+handle_async; both must agree).
 Probed by execution on two fixed inputs (the outcome must be one of the whitelisted behaviours):
   EXTNH_PER_FAMILY  MPRNLRI.unpack_attribute on a session with the RFC 8950 capability for ipv4 unicast only:
                     an IPv6 unicast MP_REACH_NLRI with a 4-octet next hop is accepted (false: the legal lengths are
@@ -123,6 +125,34 @@ def _probe_extnh():
     raise Untranslatable(f'probe: unexpected outcome {r} for an IPv6 unicast MP_REACH_NLRI with a 4-octet next hop')
 
 
+def _probe_ribin_order():
+    """Order of the two loops of UpdateHandler.handle / handle_async, read from the source by ast:
+    True = the withdraws of an UPDATE are applied before its announces.  Fail closed: each method must hold exactly
+    one `for ... in parsed.announces` and one `for ... in parsed.withdraws`, and both methods must agree."""
+    import ast
+    import inspect
+    import textwrap
+    from exabgp.reactor.peer.handlers.update import UpdateHandler
+
+    orders = []
+    for name in ('handle', 'handle_async'):
+        fn = getattr(UpdateHandler, name)
+        tree = ast.parse(textwrap.dedent(inspect.getsource(fn)))
+        seen = []
+        for node in ast.walk(tree):
+            if isinstance(node, (ast.For, ast.AsyncFor)) and isinstance(node.iter, ast.Attribute) \
+                    and isinstance(node.iter.value, ast.Name) and node.iter.value.id == 'parsed' \
+                    and node.iter.attr in ('announces', 'withdraws'):
+                seen.append((node.lineno, node.iter.attr))
+        seen.sort()
+        if sorted(a for _, a in seen) != ['announces', 'withdraws']:
+            raise Untranslatable(f'UpdateHandler.{name}: expected one loop over parsed.announces and one over parsed.withdraws, found {seen}')
+        orders.append(seen[0][1] == 'withdraws')
+    if orders[0] != orders[1]:
+        raise Untranslatable('UpdateHandler.handle and handle_async apply announces and withdraws in different orders')
+    return orders[0]
+
+
 def main(repo, gen_dir):
     import exabgp
 
@@ -207,5 +237,8 @@ def main(repo, gen_dir):
     L.append('')
     L.append('(* probed: RFC 8950 next hop lengths added per negotiated <AFI, SAFI> (true) or looked up by length for every family (false) *)')
     L.append(f'Definition EXTNH_PER_FAMILY : bool := {"true" if _probe_extnh() else "false"}.')
+    L.append('')
+    L.append('(* read from the source of UpdateHandler.handle / handle_async: the withdraws of an UPDATE are applied before its announces *)')
+    L.append(f'Definition RIBIN_WITHDRAW_FIRST : bool := {"true" if _probe_ribin_order() else "false"}.')
     L.append('')
     write_if_changed(os.path.join(gen_dir, 'Gen_AttrTable.v'), '\n'.join(L) + '\n')
